@@ -307,8 +307,150 @@ def rule_std_includes(ctx, px):
                "in headers generated without serialization support", f.node.lineno)
     # the dependency builder sets uses_integer for unions
     b = px.func("nunavut._dependencies", "DependencyBuilder._build_dependency_list")
-    ok = "isinstance(dependant, pydsdl.UnionType)" in ast.unparse(b.node) and "results.uses_integer = True" in ast.unparse(b.node)
+    ok = ("UnionType" in ast.unparse(b.node) or "_defines_union" in ast.unparse(b.node)) and "results.uses_integer = True" in ast.unparse(b.node)
     ctx.ob(R, b.module.rel, f"{b.short} :: unions count as integer users (tag field)", ok, "", b.node.lineno)
+
+
+def rule_omit_std_types(ctx, ts):
+    R = "R-C06-OMIT-STD-TYPES"
+    ctx.rule(
+        R,
+        "C type templates use bool / uintN_t typedefs outside the `not nunavut.support.omit` guard (union accessors, "
+        "bit-packed storage, the placeholder member of empty types) under conditions that the dependency flags do not "
+        "cover; the type header must therefore include <stdbool.h> and <stdint.h> itself when the support header is "
+        "omitted (or unconditionally)",
+    )
+    N = ts.nodes
+    base = ts.get("c", "base.j2")
+    have = {}
+    for node, stack in j2front.walk(base.ast):
+        if isinstance(node, N.TemplateData):
+            for m in re.finditer(r"#\s*include\s*<(stdbool|stdint)\.h>", node.data):
+                f = j2front.facts(stack)
+                if f in ([], [("nunavut.support.omit", True)]):
+                    have[m.group(1)] = True
+    orc = j2front.GuardOracle(ts, "c")
+    uses = {"stdbool": [], "stdint": []}
+    for t in ts.of_lang("c", "templates"):
+        for node, stack in j2front.walk(t.ast):
+            hdr = None
+            if isinstance(node, N.Name) and node.ctx == "load" and node.name == "typename_boolean":
+                hdr = "stdbool"
+            elif isinstance(node, N.Name) and node.ctx == "load" and node.name == "typename_byte":
+                hdr = "stdint"
+            if hdr and not orc.guarded(t, stack, _not_omit):
+                uses[hdr].append((t, node, stack))
+    n = 0
+    for hdr, sites in uses.items():
+        for t, node, stack in sites:
+            n += 1
+            ok = have.get(hdr, False)
+            ctx.ob(R, t.rel, f"{node.name} @ {j2front.construct_path(stack)}", ok,
+                   f"<{hdr}.h> is included by base.j2 when support is omitted" if ok else
+                   f"emitted without serialization support as well, but nothing guarantees <{hdr}.h> then (the include list adds it only "
+                   "for matching field kinds): e.g. an empty type or a float-only union does not compile with --omit-serialization-support",
+                   getattr(node, "lineno", None))
+    ctx.floor(R, n, 3)
+
+
+def rule_member_strop(ctx, ts):
+    R = "R-C06-MEMBER-STROP"
+    ctx.rule(
+        R,
+        "identifiers derived from a DSDL name plus a fixed suffix are formed as id(name) + suffix wherever they are "
+        "declared, because that is how the (de)serialization templates refer to them; the `id` filter is never applied "
+        "to a concatenation of a name and a suffix (stropping does not commute with concatenation)",
+    )
+    N = ts.nodes
+    n = 0
+    for lang in ("c", "cpp"):
+        orc = j2front.GuardOracle(ts, lang)
+        for t in ts.of_lang(lang, "templates"):
+            macros = ts.macros(t)
+            for mname, m in list(macros.items()) + [("<top>", t.ast)]:
+                params = [a.name for a in m.args] if mname != "<top>" else []
+                for f in m.find_all(N.Filter):
+                    if f.name != "id" or f.node is None:
+                        continue
+                    n += 1
+                    exprs = [f.node]
+                    if isinstance(f.node, N.Name) and f.node.name in params:
+                        idx = params.index(f.node.name)
+                        hosts = {id(h): h for h, _ in orc.call_sites.get((t.name, mname), [])}
+                        for host in hosts.values():
+                            for c in host.ast.find_all(N.Call):
+                                nm = c.node.name if isinstance(c.node, N.Name) else None
+                                if nm == mname and idx < len(c.args):
+                                    exprs.append(c.args[idx])
+                    for e in exprs:
+                        concat = isinstance(e, (N.Add, N.Concat)) or (isinstance(e, N.Filter) and e.name == "format")
+                        if concat:
+                            parts = [e.left, e.right] if isinstance(e, N.Add) else (list(e.nodes) if isinstance(e, N.Concat) else [e.node] + list(e.args))
+                            has_const = any(isinstance(x, N.Const) and isinstance(x.value, str) for x in parts)
+                            has_var = any(not isinstance(x, N.Const) for x in parts)
+                            if has_const and has_var:
+                                ctx.ob(R, t.rel, f"`{xs(e)} | id` in {mname}", False,
+                                       "the declared identifier is id(name + suffix) while uses append the suffix to id(name): for every name "
+                                       "that stropping changes (keywords such as `register`) the member does not exist and the header does not compile",
+                                       f.lineno)
+    ctx.ob(R, "src/nunavut/lang", f"{n} uses of the id filter in C/C++ templates examined", True, "")
+    ctx.floor(R + ":id-uses", n, 20)
+
+
+def rule_union_dep(ctx, px):
+    R = "R-C06-UNION-DEP"
+    ctx.rule(
+        R,
+        "the dependency builder recognises a union wherever a header defines one: behind a delimited wrapper "
+        "(inner_type) and inside a service (request_type / response_type) - the same case split that "
+        "_extract_data_types applies to services",
+    )
+    f = px.func("nunavut._dependencies", "DependencyBuilder._build_dependency_list")
+    # the statement that sets uses_union and its condition
+    cond = None
+    for st, gd in pyfront.walk_guarded(f.node.body):
+        if isinstance(st, ast.Assign) and ast.unparse(st.targets[0]).endswith(".uses_union"):
+            cond = [e for e, p in pyfront.guard_terms(gd) if p]
+    if cond is None:
+        raise AnalysisError("anchor missing: uses_union assignment in _build_dependency_list")
+    text = " ".join(cond)
+    # follow one helper call
+    for c in ast.walk(ast.parse(text, mode="eval")) if text else []:
+        if isinstance(c, ast.Call) and isinstance(c.func, ast.Attribute):
+            h = f.cls.methods.get(c.func.attr) if f.cls else None
+            if h is not None:
+                text += " " + ast.unparse(h.node)
+    for what, why in (("inner_type", "a non-sealed union is a DelimitedType wrapping the union"),
+                      ("ServiceType", "a service header defines its request and response types")):
+        ok = what in text
+        ctx.ob(R, f.module.rel, f"{f.short} :: union detection looks at {what}", ok,
+               "" if ok else f"{why}; without this the C++17 header lacks <variant> (and C may lack <stdint.h> for the tag)", f.node.lineno)
+
+
+def rule_deprecated_self_use(ctx, ts):
+    R = "R-C06-DEPRECATED-SELF"
+    ctx.rule(
+        R,
+        "a C++ template that marks the generated struct [[deprecated]] must not use that struct in the same header "
+        "outside the struct without suppressing -Wdeprecated-declarations (the header would warn about itself under "
+        "the project's strict warning set)",
+    )
+    N = ts.nodes
+    t = ts.get("cpp", "_composite_type.j2")
+    marks = False
+    for node, stack in j2front.walk(t.ast):
+        if isinstance(node, N.TemplateData) and "[[deprecated" in node.data:
+            marks = True
+    if not marks:
+        ctx.ob(R, t.rel, "struct is not marked [[deprecated]]", True, "")
+        return
+    text = "".join(n.data for n in t.ast.find_all(N.TemplateData))
+    uses_outside = re.search(r"(inline|static)[^;{]*\b(serialize|deserialize)\s*\(", text) is not None
+    suppressed = "diagnostic ignored \"-Wdeprecated-declarations\"" in text or "-Wdeprecated-declarations" in text
+    ok = (not uses_outside) or suppressed
+    ctx.ob(R, t.rel, "free serialize()/deserialize() of a [[deprecated]] struct", ok,
+           "" if ok else "the header defines serialize(const T&, ...) / deserialize(T&, ...) for the struct it has just marked [[deprecated]] with no "
+           "diagnostic suppression: `@deprecated uint8 x` fails with -Werror=deprecated-declarations against itself")
 
 
 def rule_include_monotone(ctx, px):
@@ -615,6 +757,10 @@ def run(ctx):
     rule_options(ctx, ts, reg)
     rule_omit_scope(ctx, ts, px)
     rule_std_includes(ctx, px)
+    rule_omit_std_types(ctx, ts)
+    rule_member_strop(ctx, ts)
+    rule_union_dep(ctx, px)
+    rule_deprecated_self_use(ctx, ts)
     rule_include_monotone(ctx, px)
     rule_address_of(ctx, ts)
     rule_directive_bol(ctx, ts)
